@@ -385,7 +385,7 @@ impl Model {
         let sets = merged
             .feature_sets
             .iter()
-            .map(|fs| (fs.weight, fs.left_id, fs.right_id))
+            .map(|fs| (fs.weight, fs.left_id.get(), fs.right_id.get()))
             .collect();
         let mut matrix = vec![];
         for (r, hm) in merged.matrix.iter().enumerate() {
